@@ -288,3 +288,52 @@ pub fn finish_check(prop: &str, tier: &str, start: Instant, r: BResult) -> i32 {
     eprintln!("[{}] cells/histories={} states={} operations={} distinct={} violations={} ({} known) {:.1}s", prop, r.evaluations, r.states, r.transitions, r.distinct, new_v, known_hits.len(), start.elapsed().as_secs_f64());
     exit
 }
+
+// ---------------------------------------------------------------------------------------------
+// A pass-through hook table that only counts named scheduling points (used inside probe children).
+
+pub mod counters {
+    use signal_hook_registry::verif as shim;
+    use std::sync::atomic::{AtomicU64, Ordering};
+    pub static WAKES: AtomicU64 = AtomicU64::new(0);
+    pub static WAKE_FD: AtomicU64 = AtomicU64::new(0);
+    pub static SIGACTIONS: AtomicU64 = AtomicU64::new(0);
+    fn pre(_: &shim::Op) -> u32 {
+        0
+    }
+    fn post(_: &shim::Op, real: u64, _: bool) -> u64 {
+        real
+    }
+    fn loc_drop(_: usize, _: u8) {}
+    fn m1(_: usize, _: &'static str, _: u32) {}
+    fn m2(_: usize, _: bool) {}
+    fn m3(_: usize) {}
+    fn y(k: u8) {
+        if k == shim::YIELD_THREAD {
+            std::thread::yield_now()
+        } else {
+            std::hint::spin_loop()
+        }
+    }
+    fn sp(tag: &'static str, a: u64) {
+        match tag {
+            "wake" => {
+                WAKES.fetch_add(1, Ordering::SeqCst);
+                WAKE_FD.store(a, Ordering::SeqCst);
+            }
+            "sigaction_install" => {
+                SIGACTIONS.fetch_add(1, Ordering::SeqCst);
+            }
+            _ => {}
+        }
+    }
+    fn ev(_: &'static str, _: u64, _: u64) {}
+    fn br(_: i32) {}
+    static TABLE: shim::Hooks = shim::Hooks { pre, post, loc_drop, mutex_pre_lock: m1, mutex_post_lock: m2, mutex_pre_unlock: m3, yield_hint: y, sched_point: sp, event: ev, blocking_read: br };
+    pub fn install() {
+        shim::install(&TABLE);
+    }
+    pub fn wakes() -> u64 {
+        WAKES.load(Ordering::SeqCst)
+    }
+}
